@@ -89,6 +89,8 @@ pub fn acc_share4(s: &mut Src) { accessors::<7, 4, 11, true, false>(s, b"$share/
 pub fn acc_share5(s: &mut Src) { accessors::<7, 5, 12, true, false>(s, b"$share/") }
 pub fn acc_near3(s: &mut Src) { accessors::<7, 3, 10, false, true>(s, b"$shared") }
 pub fn acc_near_noslash4(s: &mut Src) { accessors::<6, 4, 10, true, true>(s, b"$share") }
+pub fn acc_near_noslash5(s: &mut Src) { accessors::<6, 5, 11, true, true>(s, b"$share") }
+pub fn acc_near4(s: &mut Src) { accessors::<7, 4, 11, false, true>(s, b"$shared") }
 
 /// Eq / Ord / Hash of two accepted filters depend on the text only (one shared, one not, same
 /// length so that every ordering outcome is reachable)
@@ -157,6 +159,8 @@ scenarios! {
     #[kani::unwind(16)] c17_acc_share5 [5] => acc_share5;
     #[kani::unwind(14)] c17_acc_near3 [3] => acc_near3;
     #[kani::unwind(14)] c17_acc_near_noslash4 [4] => acc_near_noslash4;
+    #[kani::unwind(15)] c17_acc_near_noslash5 [5] => acc_near_noslash5;
+    #[kani::unwind(15)] c17_acc_near4 [4] => acc_near4;
     #[kani::unwind(14)] c17_compare [6] => compare;
     #[kani::unwind(15)] c17_compare_shared [8] => compare_shared;
 }
